@@ -25,8 +25,9 @@ ASSUMPTIONS = ["wall-clock performance is not covered; the bound is in instrumen
 RULE = ("per API call: edges executed vs. K*(sum of input file sizes + declared output + 4096); malformed variants of generated archives, fixtures, pathological constructions; "
         "non-trivial = a call that executed at least 1000 edges; distinct by archive bytes + op")
 
-K_EDGES_PER_BYTE = 400          # measured maxima on the clean tree are below 60 edges/byte (see evidence: max_ratio)
-C_CONST = 200000
+K_EDGES_PER_BYTE = 2500         # measured maxima on the clean tree: below 60 edges/byte typically, ~800 for OAB/LZX streams made of
+                                # many tiny LZX blocks (every block header rebuilds three decode tables); see evidence: max_ratio
+C_CONST = 500000
 WATCHDOG = "20"
 
 def pathological(rng):
@@ -57,6 +58,19 @@ def pathological(rng):
                 for salv in (0, 1):
                     out.append(([f"file b.bin {blob.hex()}", "new cab", f"param i0 SALVAGE {salv}", f"param i0 SEARCHBUF {rng.choice([4, 64, 32768])}", "search i0 b.bin", "destroy i0"],
                                 dict(family="cab.search-size-fields", field=field, value=val, salvage=salv)))
+    for cb, cf in ((0xFFFFFFFF, 0x80000000), (0x80000000, 0x80000000), (0xFFFFFF00, 0xFFFFFFFF), (0x80000001, 44), (0xFFFFFFFF, 0)):
+        c2 = bytearray(cab); struct.pack_into("<I", c2, 8, cb); struct.pack_into("<I", c2, 16, cf)
+        for blob in (cab + bytes(c2), b"x" + bytes(c2) + cab, cab + bytes(c2) + b"pad" * 40):
+            for salv in (0, 1):
+                out.append(([f"file b.bin {blob.hex()}", "new cab", f"param i0 SALVAGE {salv}", "search i0 b.bin", "destroy i0"],
+                            dict(family="cab.search-size-fields", field="both", value=[cb, cf], salvage=salv)))
+    # join sequences that would close a circle over three or four cabinets (no input is read at all: a call that does not
+    # return here spins on the lists themselves)
+    cabs3 = [minicab.build([(0, [(b"data%d" % i, 5)])], [dict(name=b"f%d.bin" % i, length=5, offset=0, folder=0)], cab_index=i)[0] for i in range(4)]
+    for seq in (["append i0 h0 h1", "append i0 h1 h2", "append i0 h2 h0"], ["prepend i0 h1 h0", "prepend i0 h2 h1", "prepend i0 h0 h2"],
+                ["append i0 h0 h1", "append i0 h1 h2", "append i0 h2 h3", "append i0 h3 h0"], ["append i0 h0 h1", "append i0 h2 h3", "append i0 h1 h2", "prepend i0 h0 h3"]):
+        out.append(([f"file c{i}.cab {c.hex()}" for i, c in enumerate(cabs3)] + ["new cab"] + [f"open i0 c{i}.cab" for i in range(4)] + seq + ["close i0 h0", "destroy i0"],
+                    dict(family="cab.join-circle")))
     # MSZIP: stored deflate blocks whose LEN runs past the 32768-byte window, data present
     def stored(n, data=None):
         data = bytes(n) if data is None else data
